@@ -10,6 +10,7 @@ EXPLANATION = ("C03: ownership typestate for nni_msg* over every function that t
                "callbacks dispose of the message they carry), orphan draining in fini slots, guard consistency of "
                "conditional references, sized-free agreement."
                " Also: a size passed to nni_free from a companion field is the size that was allocated (O4); protocol state that is written under the socket lock at one site is written under it everywhere (O7); every send slot takes the message off the aio before it completes the send successfully (O8).")
+EXPLANATION += ' Round 6: scalar locals are assigned before use (O12); an element taken off an owning list is not dropped (O13); an aio is not completed with an error while it carries a message this function released (O1); a size is recorded only together with a new block (O4).'
 
 SEND_SLOTS = ("nni_proto_sock_ops.sock_send", "nni_proto_ctx_ops.ctx_send", "nni_sp_pipe_ops.p_send")
 
